@@ -83,7 +83,7 @@ func gramMain(args []string) {
 		var bads []bad
 		for _, s := range ss {
 			if d := gCheck(s); d != "" {
-				if key, why, ok := gKnown(s); ok {
+				if key, why, ok := gKnown(s, d); ok {
 					if len(args) > 3 && args[3] == "new" {
 						continue
 					}
